@@ -6,6 +6,7 @@ import (
 	"fmt"
 	"math/rand"
 	"net"
+	"strconv"
 	"time"
 
 	"sync"
@@ -164,7 +165,7 @@ func (p *GenericPacketForwarder) udpSender(serverConn *net.UDPConn) {
 		if val.JSONString != "" {
 			p.context.GwEventRouter.Publish(val.GatewayEUI, gwevents.NewTx(val.JSONString))
 		}
-		targetAddr, err := net.ResolveUDPAddr("udp", fmt.Sprintf("%s:%d", val.Host, val.Port))
+		targetAddr, err := net.ResolveUDPAddr("udp", net.JoinHostPort(val.Host, strconv.Itoa(val.Port)))
 		if err != nil {
 			lg.Warning("Unable to resolve target address for gateway (%s:%d): %v", val.Host, val.Port, err)
 			continue
